@@ -1,7 +1,9 @@
 #!/usr/bin/env python3
 """confirm_seed.py <seed_dir> <seed_id> <property> [check ids...]
-Confirms a seeded change (patch.diff + demo.py) in a scratch worktree, runs the registered checks against it
-applied to /repo (reverted afterwards), and stores it under /verif/seeded/<seed_id>/."""
+Confirms a seeded change (patch.diff + demo.py) in a scratch worktree of /repo HEAD (tests still pass, the demo
+fails with it and passes without), runs the registered quick checks against that worktree
+(VERIF_IMPL_SRC=<worktree>/src; the same code path as the default /repo/src; evidence redirected), and stores
+the change under /verif/seeded/<seed_id>/.  /repo itself is not touched."""
 import json, os, shutil, subprocess, sys, re
 seed_dir, seed_id, prop = sys.argv[1:4]
 checks = sys.argv[4:] or [prop]
@@ -9,10 +11,11 @@ wt = "/tmp/confirm_%s" % seed_id
 def sh(cmd, **kw):
     return subprocess.run(cmd, shell=True, stdout=subprocess.PIPE, stderr=subprocess.STDOUT, text=True, **kw)
 sh("git -C /repo worktree remove --force %s" % wt)
-assert sh("git -C /repo status --porcelain").stdout.strip() == "", "/repo not clean"
 r = sh("git -C /repo worktree add -q %s HEAD" % wt); assert r.returncode == 0, r.stdout
 res = {"property": prop}
+det = {}
 try:
+    d0 = sh("cd /tmp && PYTHONPATH=%s/src PYTHONHASHSEED=0 /venv/bin/python -W ignore %s/demo.py" % (wt, seed_dir))
     r = sh("git -C %s apply %s/patch.diff" % (wt, seed_dir)); assert r.returncode == 0, "patch does not apply: " + r.stdout
     env = "PYTHONPATH=%s/src PYTHONHASHSEED=0" % wt
     t = sh("cd %s && %s /venv/bin/python -m pytest -q -p no:cacheprovider 2>&1 | tail -4" % (wt, env))
@@ -21,25 +24,19 @@ try:
     failed = re.findall(r"FAILED (\S+)", t.stdout)
     ok_tests = m and m.group(2) == "38" and set(x.split("::")[-1] for x in failed) <= {"test_type_constructors", "test_definition_validate_etc"}
     d1 = sh("cd /tmp && %s /venv/bin/python -W ignore %s/demo.py" % (env, seed_dir))
-    d0 = sh("cd /tmp && PYTHONPATH=/repo/src PYTHONHASHSEED=0 /venv/bin/python -W ignore %s/demo.py" % seed_dir)
     res["demo_with_change_rc"] = d1.returncode
     res["demo_without_change_rc"] = d0.returncode
     res["demo_output_with_change"] = d1.stdout[-600:]
     confirmed = bool(ok_tests and d1.returncode != 0 and d0.returncode == 0)
     res["confirmed"] = confirmed
-finally:
-    sh("git -C /repo worktree remove --force %s" % wt)
-det = {}
-if res.get("confirmed"):
-    r = sh("git -C /repo apply %s/patch.diff" % seed_dir); assert r.returncode == 0, r.stdout
-    try:
+    if confirmed:
         for c in checks:
-            o = sh("cd /verif && ./check %s --tier quick" % c)
+            o = sh("cd /verif && VERIF_IMPL_SRC=%s/src VERIF_EVIDENCE_DIR=/tmp/confirm_evidence_%s ./check %s --tier quick" % (wt, seed_id, c))
             v = [l for l in o.stdout.split("\n") if l.startswith("VIOLATION")]
             det[c] = {"rc": o.returncode, "violation_lines": v}
-    finally:
-        sh("git -C /repo checkout -- .")
-    assert sh("git -C /repo status --porcelain").stdout.strip() == ""
+finally:
+    sh("git -C /repo worktree remove --force %s" % wt)
+    sh("rm -rf /tmp/confirm_evidence_%s" % seed_id)
 res["detected_by"] = det
 print(json.dumps(res, indent=1))
 if res.get("confirmed"):
@@ -50,6 +47,6 @@ if res.get("confirmed"):
     meta = json.load(open(seed_dir + "/meta.json")) if os.path.exists(seed_dir + "/meta.json") else {}
     meta.update({"property": prop, "confirmation": {k: res[k] for k in ("tests_with_change", "demo_with_change_rc", "demo_without_change_rc")},
                  "what_i_ran": "scratch worktree of /repo HEAD + patch: pytest (38 pass, the 2 baseline failures only); demo.py with and without the change; "
-                               "then `git -C /repo apply patch.diff; ./check <id> --tier quick; git -C /repo checkout -- .` for: " + ", ".join(checks),
+                               "then the registered quick checks with the implementation taken from that worktree (VERIF_IMPL_SRC) for: " + ", ".join(checks),
                  "detected_by": {c: ("yes" if d["rc"] == 1 and d["violation_lines"] else "NO") + " " + " ".join(d["violation_lines"]) for c, d in det.items()}})
     json.dump(meta, open(out + "/meta.json", "w"), indent=1)
